@@ -12,6 +12,7 @@ EXTENDS Autograd
 
 MC_LeafVals == {LitT(<<2>>, <<1, 2>>), LitT(<<1, 2>>, <<3, -1>>), LitT(<<2, 2>>, <<1, -2, 0, 3>>)}
 MC_UnOps == {<<"sumalong", [dim |-> 0]>>, <<"transpose", NoPar>>, <<"slice", [index |-> <<<<0, 1>>>>]>>, <<"scale", [k |-> MinusOne]>>}
+MC_CtorShapes == {}
 MC_BinOps == {<<"add", NoPar>>, <<"mul", NoPar>>, <<"matmul", NoPar>>, <<"concat", [dim |-> 0]>>}
 
 Bounded == \A i \in Ids : \A p \in DOMAIN T[i].val.data : Abs(T[i].val.data[p].n) < 200
